@@ -5,7 +5,7 @@ import ast
 import warnings
 
 from harness import asdl, impl
-from harness.common import rng, short
+from harness.common import quick_scale, rng, short
 from harness.gen import corpus, mutate, pyprog, xonshgen
 
 warnings.filterwarnings("ignore")
@@ -114,7 +114,7 @@ def check_one(src: str, mode: str = "exec", variant: str = "shipped"):
 
 def build_inputs(tier):
     r = rng("C04")
-    N = 1 if tier == "quick" else 25
+    N = quick_scale() if tier == "quick" else 25
     cases = []
     for s in corpus.PY_STMTS:
         cases.append(("py", s, "exec"))
